@@ -73,3 +73,15 @@ def normalize_shape(a: int | Sequence[int], ndim: int):
     else:
         _output_shape = tuple(a)
     return _output_shape
+
+
+def normalize_max_shifts(x) -> tuple[float, float, float]:
+    """Normalize a scalar or a 3-tuple of maximum shifts to a 3-tuple of floats."""
+    if hasattr(x, "__iter__"):
+        tup = tuple(float(x0) for x0 in x)
+        if len(tup) != 3:
+            raise ValueError(
+                "max_shifts must be a 3-tuple if multiple values are given."
+            )
+        return tup  # type: ignore
+    return (float(x),) * 3
